@@ -67,6 +67,30 @@ class Grammar:
             return (set(), True)
         return ({"?"}, False)
 
+    def refs(self):
+        if not hasattr(self, "_refs"):
+            self._refs = {}
+
+            def walk(owner, e):
+                if e["k"] == "ident" and e["v"] in self.rules:
+                    self._refs.setdefault(e["v"], set()).add(owner)
+                for k in ("a", "b", "e"):
+                    if isinstance(e.get(k), dict):
+                        walk(owner, e[k])
+            for r in self.rules.values():
+                walk(r["name"], r["expr"])
+        return self._refs
+
+    def effectively_atomic(self, name, stack=()):
+        """atomicity cascades in pest: a normal / silent rule is matched atomically when every rule that refers to it is"""
+        r = self.rules[name]
+        if r["ty"] in ("atomic", "compound"):
+            return True
+        if r["ty"] == "nonatomic" or name in stack:
+            return False
+        users = self.refs().get(name, set()) - {name}
+        return bool(users) and all(self.effectively_atomic(u, stack + (name,)) for u in users)
+
     def bounded_keyword(self, e, kw):
         """e names (or is) an atomic sequence `"kw" ~ !<identifier characters>`"""
         if e["k"] == "ident" and e["v"] in self.rules:
@@ -113,7 +137,7 @@ def run(F, rep, rule, only=None):
     for name, ty, kw, after, before in sorted(keyword_sites(gr), key=lambda x: (x[0], x[2])):
         if only is not None and name not in only:
             continue
-        atomic = ty in ("atomic", "compound")
+        atomic = ty in ("atomic", "compound") or gr.effectively_atomic(name)
         key = "%s|%s|%s" % (rule, name, kw)
         label = "grammar rule %s: the keyword `%s` does not match the beginning of a longer identifier" % (name, kw)
         look = any(b["k"] == "pospred" and gr.bounded_keyword(b["e"], kw) for b in before[-1:])
@@ -137,6 +161,11 @@ def run(F, rep, rule, only=None):
             rep.ob(rule, label, "ok" if atomic else "undecided", "explicit WHITESPACE after the keyword", "compiler/src/grammar.pest", key=key)
             continue
         fs, nullable = gr.first(nxt)
+        while nullable and not (fs & IDCH) and "?" not in fs and len(after) > 1:
+            # optional whitespace (`WHITESPACE*`) separates nothing: the element behind it is what follows the keyword
+            after = after[1:]
+            nxt = after[0]
+            fs, nullable = gr.first(nxt)
         if not (fs & IDCH) and "?" not in fs and not nullable:
             continue                    # `"fn" ~ "("`: the next character cannot continue an identifier
         if len(after) > 1 and not all(gr.first(x)[1] for x in after[1:]):
